@@ -181,7 +181,7 @@ Fixpoint split_every (n : nat) (k : nat) (l : list Z) : list (list Z) :=
   | S k' => firstn n l :: split_every n k' (skipn n l)
   end.
 
-Definition delta_cap : N := 4000000%N.
+Definition delta_cap : N := 200000%N.
 
 (* [cap]: the Go code allocates nmetrics*ndeltas words whatever their number; the
    executable instance of the model refuses absurd products (Some cap) instead of
